@@ -60,3 +60,31 @@ func TestC09AliasCycleTerminates(t *testing.T) {
 		t.Fatalf("crashed: %v", p)
 	}
 }
+
+// C09.R8: strings that are not sentences of the condition grammar must be rejected, not partly evaluated.
+func TestC09ConditionNonSentencesAreRejected(t *testing.T) {
+	li := interpreter.Language{}
+	it := map[string]*types.Item{"a": {S: str1("x")}, "b": {S: str1("x")}}
+	vals := map[string]*types.Item{":a": {S: str1("x")}}
+	for _, ex := range []string{"a IN b :a)", "a BETWEEN :a AND", "a BETWEEN ( AND )", "a IN ()", "a.( = :a", "a[] = :a", "a = :a\x00 garbage"} {
+		func() {
+			defer func() { recover() }() // a panic carrying the error is the documented rejection at some layers
+			_, err := li.Match(interpreter.MatchInput{TableName: "t", Expression: ex, ExpressionType: interpreter.ExpressionTypeConditional, Item: it, Attributes: vals})
+			if err == nil {
+				t.Errorf("%q is accepted", ex)
+			}
+		}()
+	}
+}
+
+// C09.R8: non-sentences of the update grammar.
+func TestC09UpdateNonSentencesAreRejected(t *testing.T) {
+	li := interpreter.Language{}
+	vals := map[string]*types.Item{":a": {S: str1("x")}}
+	for _, ex := range []string{"SET x = :a REMOVE", "SET x = :a SET y = :a", "REMOVE y ADD", "SET x = :a\x00 REMOVE y"} {
+		item := map[string]*types.Item{"y": {S: str1("x")}}
+		if err := li.Update(interpreter.UpdateInput{TableName: "t", Expression: ex, Item: item, Attributes: vals}); err == nil {
+			t.Errorf("%q is accepted (item now %d attributes)", ex, len(item))
+		}
+	}
+}
